@@ -29,7 +29,7 @@ ASSUMPTIONS = [
     "a distribution node without a variable is never simulated (documented behaviour), not part of the space",
 ]
 
-LINKS = ["direct", "calc", "tcalc", "wvar", "calc2", "kw"]
+LINKS = ["direct", "calc", "tcalc", "wvar", "calc2", "kw", "mixed"]
 FN = {"neg": lambda x: -x, "twice": lambda x: 2.0 * x, "half": lambda x: 0.5 * x}
 
 
@@ -47,6 +47,10 @@ def units(tier, seed):
         for l1 in LINKS:
             for sh in shapes2:
                 cases.append({"links": [l0, l1], "shapes": [list(sh[0]), list(sh[1])]})
+            if l0 in ("direct", "calc", "kw"):
+                # multivariate root (event shape (3,)): value shapes (3,) and (2,3)
+                cases.append({"links": [l0, l1], "shapes": [[3], [3]], "mv": True})
+                cases.append({"links": [l0, l1], "shapes": [[2, 3], [2, 3]], "mv": True})
         us.append({"cases": cases, "seeds": seeds})
     # depth 3: mu -> v0 -> v1 -> v2, and diamond v2 <- (v0, v1)
     shapes3 = [((), (), ()), ((), (3,), (2, 3))] if tier == "quick" else [((), (), ()), ((), (3,), (2, 3)), ((3,), (3,), (3,)), ((), (), (3,))]
@@ -58,7 +62,7 @@ def units(tier, seed):
                     cases.append({"links": [l0, l1, l2], "shapes": [list(s) for s in sh]})
                     if l2 in ("calc", "direct", "tcalc"):
                         cases.append({"links": [l0, l1, l2], "shapes": [list(s) for s in sh], "diamond": True})
-            us.append({"cases": cases, "seeds": seeds})
+            us.append({"cases": cases, "seeds": seeds[:1] if tier == "quick" else seeds})
     return us
 
 
@@ -124,10 +128,10 @@ def build(case, log):
             h["link_nodes"].append((a, [parent], f))
             h["link_nodes"].append((b, [a], f))
             return b, (lambda x, f=f: f(f(x))), False
-        if kind == "kw":
+        if kind in ("kw", "mixed"):
             n = lsl.Calc(f, parent, _name=f"l{k}")
             h["link_nodes"].append((n, [parent], f))
-            return n, f, True
+            return n, f, kind
         raise ValueError(kind)
 
     FN_ID = lambda x: x  # noqa
@@ -136,8 +140,18 @@ def build(case, log):
     for k, (lk, shp) in enumerate(zip(links, shapes)):
         node, f, kw = link(lk, parent, k)
         if k == 0:
-            base = lambda *a, _k=k, **kws: Rec(f"v{_k}", log, tfd.Normal, *a, **kws)  # noqa
-            dist = lsl.Dist(base, loc=node, scale=jnp.float32(1.0)) if kw else lsl.Dist(base, node, jnp.float32(1.0))
+            if case.get("mv"):
+                # event rank 1: v0 ~ MVNDiag(loc = link(mu) * ones(3), scale_diag = ones(3))
+                mv = lambda loc, scale_diag: tfd.MultivariateNormalDiag(loc=loc * jnp.ones(3), scale_diag=scale_diag)  # noqa
+                base = lambda *a, _k=k, **kws: Rec(f"v{_k}", log, mv, *a, **kws)  # noqa
+                dist = lsl.Dist(base, loc=node, scale_diag=jnp.ones(3, dtype=jnp.float32))
+            elif kw == "mixed":
+                nrm = lambda scale, loc: tfd.Normal(loc=loc, scale=scale)  # noqa  positional scale, keyword loc
+                base = lambda *a, _k=k, **kws: Rec(f"v{_k}", log, nrm, *a, **kws)  # noqa
+                dist = lsl.Dist(base, lsl.Value(jnp.float32(1.0), _name=f"one{k}"), loc=node)
+            else:
+                base = lambda *a, _k=k, **kws: Rec(f"v{_k}", log, tfd.Normal, *a, **kws)  # noqa
+                dist = lsl.Dist(base, loc=node, scale=jnp.float32(1.0)) if kw else lsl.Dist(base, node, jnp.float32(1.0))
             reffn.append(("normal", f, None))
         else:
             if case.get("diamond") and k == 2:
@@ -149,13 +163,21 @@ def build(case, log):
                 dist = lsl.Dist(base, loc=comb)
                 reffn.append(("det-diamond", f, None))
             else:
-                base = lambda *a, _k=k, **kws: Rec(f"v{_k}", log, tfd.Deterministic, *a, **kws)  # noqa
-                dist = lsl.Dist(base, loc=node) if kw else lsl.Dist(base, node)
+                if kw == "mixed":
+                    det = lambda dummy, loc: tfd.Deterministic(loc=loc)  # noqa  positional constant, keyword loc
+                    base = lambda *a, _k=k, **kws: Rec(f"v{_k}", log, det, *a, **kws)  # noqa
+                    dist = lsl.Dist(base, lsl.Value(jnp.float32(7.0), _name=f"dummy{k}"), loc=node)
+                else:
+                    base = lambda *a, _k=k, **kws: Rec(f"v{_k}", log, tfd.Deterministic, *a, **kws)  # noqa
+                    dist = lsl.Dist(base, loc=node) if kw else lsl.Dist(base, node)
                 reffn.append(("det", f, None))
         v = lsl.Var(jnp.full(shp, jnp.float32(0.25) * (k + 1)), dist, name=f"v{k}")
         vs.append(v)
         parent = v
-    m = lsl.GraphBuilder().add(vs[-1]).build_model()
+    wbase = lambda *a, **kws: Rec("w", log, tfd.Normal, *a, **kws)  # noqa
+    w = lsl.Var(jnp.full(shapes[0], jnp.float32(0.0)), lsl.Dist(wbase, jnp.float32(0.0), jnp.float32(1.0)), name="w")
+    h["w"] = w
+    m = lsl.GraphBuilder().add(vs[-1], w).build_model()
     h["vs"], h["reffn"] = vs, reffn
     return m, h
 
@@ -195,7 +217,19 @@ def run_case(res, case, seeds):
                             m.auto_update = auto
                             before = [np.asarray(v.value).copy() for v in vs]
                             log.clear()
-                            m.simulate(key, skip=skip)
+                            cname0 = {"case": case, "skip": skip, "auto": auto, "stale": stale, "seed": s}
+                            try:
+                                m.simulate(key, skip=skip)
+                                after_try = [np.asarray(v.value).copy() for v in vs]
+                                if all(a.shape == b_.shape for a, b_ in zip(after_try, before)):
+                                    m.update()
+                            except Exception as e:
+                                if not core.raised_in_repo(e, transparent=("log_prob", "sample", "<lambda>")):
+                                    raise
+                                shapes_now = [np.shape(v.value) for v in vs]
+                                res.violation("simulate", "simulate-or-update-raises", cname0, f"simulate()/update() failed on a valid model: {type(e).__name__}: {str(e)[:120]} (value shapes now {shapes_now}, before {[b_.shape for b_ in before]}) ({cname0})")
+                                res.executions += 1
+                                continue
                             res.executions += 1
                             res.transitions += 1
                             after = [np.asarray(v.value).copy() for v in vs]
@@ -207,7 +241,17 @@ def run_case(res, case, seeds):
                                     res.violation("simulate", "shape-changed", cname, f"v{k}: shape {before[k].shape} -> {after[k].shape} ({cname})")
                                 if k in subset and not (after[k].shape == before[k].shape and np.array_equal(after[k], before[k])):
                                     res.violation("simulate", f"skipped-changed-{style}", cname, f"skipped v{k} (named by {style}) was modified ({cname})")
-                            drawn = [lbl for lbl, _ in log]
+                            w_after = np.asarray(h["w"].value)
+                            if w_after.shape != before[0].shape and not case.get("mv"):
+                                res.violation("simulate", "shape-changed", cname, f"w: shape changed to {w_after.shape}")
+                            if 0 not in subset and not case.get("mv") and w_after.shape == after[0].shape:
+                                # two independent N(., 1) draws: identical noise means the same key was used twice
+                                noise0 = after[0] - np.asarray(h["reffn"][0][1](mu_val), dtype=np.float32)
+                                if np.allclose(noise0, w_after, rtol=0, atol=1e-6):
+                                    res.violation("simulate", "prng-key-reuse", cname, f"v0 and the independent variable w received identical standard-normal noise {w_after.ravel()[:3]}: the same PRNG key was used for both ({cname})")
+                            if any(after[k].shape != before[k].shape for k in range(n)):
+                                continue  # reported above; nothing else can be evaluated on mis-shaped values
+                            drawn = [lbl for lbl, _ in log if lbl != "w"]
                             want_drawn = [f"v{k}" for k in range(n) if k not in subset]
                             if sorted(drawn) != sorted(want_drawn):
                                 res.violation("simulate", f"drawn-set-{style}", cname, f"variables drawn {drawn} != non-skipped {want_drawn} ({cname})")
@@ -223,6 +267,8 @@ def run_case(res, case, seeds):
                                 if k == 0:
                                     exp_loc = f(mu_val)
                                     got = logd["v0"]
+                                    if case["links"][0] == "mixed":
+                                        got = got[1:]  # (scale, loc): positional constant first
                                     # Normal(loc, scale): loc is first positional or kw (sorted: loc, scale)
                                     if not np.array_equal(np.asarray(got[0], dtype=np.float32), np.asarray(exp_loc, dtype=np.float32)):
                                         res.violation("simulate", "stale-parameter-root", cname, f"v0 drawn with loc {got[0]} but link(mu)={exp_loc} ({cname})")
@@ -262,7 +308,7 @@ def run_case(res, case, seeds):
                                 if not np.array_equal(np.asarray(node.value), want):
                                     res.violation("simulate", "incoherent-after-update", cname, f"{node.name} = {node.value} != f(input) = {want} after simulate+update ({cname})")
                             lp = 0.0
-                            for v in vs:
+                            for v in vs + [h["w"]]:
                                 lp = lp + float(np.sum(np.asarray(v.dist_node.init_dist().log_prob(v.value))))
                             if not (np.isclose(float(m.log_prob), lp, rtol=1e-5, atol=1e-5) or (np.isinf(lp) and float(m.log_prob) == lp)):
                                 res.violation("simulate", "log-prob-incoherent", cname, f"model.log_prob {float(m.log_prob)} != recomputed {lp} ({cname})")
